@@ -344,6 +344,22 @@ def run_case(case):
             mf, d_fresh = run_dump(spec2, I.default_order(spec2))
             res.count("C09.edit_and_resimulate_runs")
             compare(res, d_fresh, d_edit, "C09/simulate-after-model-edit-differs", "model edited in place (%s) and simulated again vs a fresh model with the same values" % "; ".join(what))
+    # (d0) a duplicate of the fresh model made with the copy protocol, template still alive
+    import copy as _copy
+    import pickle as _pickle
+    I.set_order(I.default_order(spec))
+    mt = B.build(spec)
+    for how in ("deepcopy", "pickle"):
+        try:
+            qd = _copy.deepcopy(mt.project) if how == "deepcopy" else _pickle.loads(_pickle.dumps(mt.project))
+            with warnings.catch_warnings():
+                warnings.simplefilter("ignore")
+                qd.simulate(**sim_kwargs(spec))
+            d = B.dump(qd)
+        except Exception as e:
+            d = dict(error=exc_info(e)["type"] + "@" + exc_info(e)["where"])
+        res.count("C09.copy_runs")
+        compare(res, base, d, "C09/copy-of-the-model-differs:" + how, "%s of the freshly built project, simulated while the template is alive" % how)
     # (d) simulate() called again on the same object
     I.set_order(I.default_order(spec))
     with warnings.catch_warnings():
